@@ -248,7 +248,43 @@ def h_write_lists(H):
     S.explore(body)
 
 
-@harness(PROPERTY, "derived_scalars", functions=["spikeglx:_get_type_from_meta", "spikeglx:_get_fs_from_meta", "spikeglx:_get_nchannels_from_meta",
+def replay_scalars(vals, oid):
+    """native: a 3B recording saved with and without its sync channel: sync count, full-scale range per channel"""
+    if "range_volts" not in oid and "sync" not in oid:
+        return {"failed": False, "note": "no native replay for this obligation"}
+    fixm = os.path.join(os.path.dirname(spikeglx.__file__), "tests", "fixtures", "sample3B_g0_t0.imec1.ap.meta")
+    bad = []
+    for nsy in (1, 0):
+        d = tempfile.mkdtemp(prefix="c09_")
+        try:
+            b = os.path.join(d, "r_g0_t0.imec1.ap.bin")
+            nc = 384 + nsy
+            np.zeros((10, nc), np.int16).tofile(b)
+            with open(fixm) as f, open(b[:-3] + "meta", "w") as g:
+                for line in f:
+                    if line.startswith("nSavedChans"):
+                        line = f"nSavedChans={nc}\n"
+                    elif line.startswith("snsApLfSy"):
+                        line = f"snsApLfSy=384,0,{nsy}\n"
+                    elif line.startswith("snsSaveChanSubset"):
+                        line = "snsSaveChanSubset=0:383" + (",768" if nsy else "") + "\n"
+                    elif line.startswith("fileSizeBytes"):
+                        line = f"fileSizeBytes={10 * nc * 2}\n"
+                    elif line.startswith("fileTimeSecs"):
+                        line = f"fileTimeSecs={10 / 30000:.10f}\n"
+                    g.write(line)
+            sr = spikeglx.Reader(b, ignore_warnings=True)
+            want = np.r_[np.full(384, 0.6 / 500), np.full(nsy, 512.0)]
+            got = np.asarray(sr.range_volts, dtype=float)
+            if sr.nsync != nsy or got.shape != want.shape or not np.allclose(got, want, rtol=1e-5):
+                bad.append({"sync_channels_saved": nsy, "nsync": sr.nsync, "range_volts_first_and_last": [float(got[0]), float(got[-1])] if got.size else [], "expected": [0.6 / 500, 512.0 if nsy else 0.6 / 500]})
+            sr.close()
+        finally:
+            shutil.rmtree(d, ignore_errors=True)
+    return {"failed": bool(bad), "cases": bad}
+
+
+@harness(PROPERTY, "derived_scalars", replay=replay_scalars, functions=["spikeglx:_get_type_from_meta", "spikeglx:_get_fs_from_meta", "spikeglx:_get_nchannels_from_meta",
                                                  "spikeglx:_get_sync_trace_indices_from_meta", "spikeglx:_get_analog_sync_trace_indices_from_meta",
                                                  "spikeglx:_get_neuropixel_version_from_meta", "spikeglx:_get_neuropixel_major_version_from_meta", "spikeglx:Reader.range_volts"],
          clause="probe generation, stream type, channel and sync counts, sampling rate agree with an independent reading of the same fields")
@@ -285,7 +321,7 @@ def h_scalars(H):
         s2v = A.fresh_array("s2v", "float32", (nap + nsy,))
         maxint = z3.Int("maxint")
         it.ctx.assume(maxint > 0)
-        md = dict(PROBES["NP2.4"], imMaxInt=SV(z3.ToReal(maxint)), snsApLfSy=[SV(z3.ToReal(nap)), 0.0, SV(z3.ToReal(nsy))])
+        md = dict(PROBES["NP2.4"], imMaxInt=SV(z3.ToReal(maxint)), snsApLfSy=[SV(z3.ToReal(nap)), 0.0, SV(z3.ToReal(nsy))], nSavedChans=SV(z3.ToReal(nap + nsy)), typeThis="imec")
         obj = SObj(spikeglx.Reader, meta=md, channel_conversion_sample2v={"ap": s2v})
         rv = it.getattr(obj, "range_volts")
         c = z3.Int("c")
